@@ -217,7 +217,10 @@ impl ObjectStore for ScriptedObjectStore {
             let fault = self.fault_for(&format!("get_{kind}"));
             let r = if fault.as_deref() == Some("corrupt") {
                 self.inner.lock().unwrap().objs.get(key).cloned().map(|mut d| {
-                    let at = if d.len() > 64 { d.len() / 2 } else { d.len().saturating_sub(1) };
+                    // the damaged position moves from one injected read to the next (record area of the object)
+                    static NTH: std::sync::atomic::AtomicUsize = std::sync::atomic::AtomicUsize::new(0);
+                    let nth = NTH.fetch_add(1, std::sync::atomic::Ordering::Relaxed);
+                    let at = if d.len() > 72 { 40 + (d.len() - 64) * [4, 6, 2, 7, 5, 3, 1][nth % 7] / 8 } else { d.len().saturating_sub(1) };
                     if !d.is_empty() {
                         d[at] ^= 0x10;
                     }
@@ -549,7 +552,7 @@ pub fn run_scenario(run: usize, scn: &Value, out: &mut Out) {
     }
 }
 
-fn random_scenario(rng: &mut impl Rng, i: usize) -> Value {
+fn random_scenario(rng: &mut impl Rng, i: usize, cheavy: bool) -> Value {
     // deltas: a hash key written by several replicas, register keys with overwrites and deletes
     let mut deltas = Vec::new();
     let n = rng.gen_range(3..=8);
@@ -580,7 +583,10 @@ fn random_scenario(rng: &mut impl Rng, i: usize) -> Value {
         if rng.gen_range(0..3) == 0 {
             ops.push(json!(["flush", faults[rng.gen_range(0..faults.len())]]));
         }
-        if rng.gen_range(0..5) == 0 {
+        if rng.gen_range(0..if cheavy { 2 } else { 5 }) == 0 {
+            if cheavy {
+                ops.push(json!(["flush", "none"]));
+            }
             ops.push(json!(["compact", cfaults[rng.gen_range(0..cfaults.len())]]));
         }
         if rng.gen_range(0..12) == 0 {
@@ -613,7 +619,7 @@ pub fn main(args: &[String]) -> i32 {
         Some("record") => {
             let mut rng = rng(a.u64("seed", 1));
             for i in 0..a.usize("n", 100) {
-                let s = random_scenario(&mut rng, i);
+                let s = random_scenario(&mut rng, i, a.u64("cheavy", 0) == 1);
                 run_scenario(i + 1, &s, &mut out);
             }
         }
